@@ -185,6 +185,7 @@ def gen_run(rng, stop=None, **over):
     return op
 
 
+@C.tolerant
 def sweep_ops(rng, exe, n_problems, **over):
     """Exhaustive stop injection: for fixed runs, `stop()` during every event index."""
     ops = []
@@ -205,6 +206,7 @@ def sweep_ops(rng, exe, n_problems, **over):
     return ops
 
 
+@C.tolerant
 def tie_ops(rng, exe, n):
     """Runs whose tolerance equals the ε reported at some loop head exactly (tie on `ε <= tolerance`)."""
     ops = []
